@@ -66,6 +66,7 @@ class Engine(ExprMixin, CallMixin, StmtMixin):
         self.memo_mismatch = {}
         self.globals_of_current = {}
         self.replayers = {}
+        self.refinements = {}
         self.assumptions = collections.defaultdict(list)
         self.bounded_notes = collections.defaultdict(list)
         from . import rules
@@ -77,7 +78,9 @@ class Engine(ExprMixin, CallMixin, StmtMixin):
         defaults = kw.pop("defaults", None)
         hints = kw.pop("cover_hints", ())
         monitors = kw.pop("item_monitors", None)
+        ghost_exit = kw.pop("ghost_exit", ())
         c = Contract(key, **kw)
+        c.ghost_exit = list(ghost_exit)
         c.item_monitors = monitors or {}
         c.uses = tuple(uses)
         c.cover_hints = list(hints)
@@ -86,6 +89,30 @@ class Engine(ExprMixin, CallMixin, StmtMixin):
         if key in self.contracts:
             raise SpecError(f"duplicate contract {key}")
         self.contracts[key] = c
+        return c
+
+    def refines(self, iface_key, impl, bind, call, closure_requires=(), serves=(), uses=(), extra_requires=(),
+                name=None):
+        """refinement lemma: the real callable `impl` (with the closure variables `bind`) may be passed where
+        a parameter of interface contract `iface_key` is expected. Verified as a one-call stub against the
+        interface contract; `closure_requires` are facts about the closure's own variables that must hold
+        where the callable is passed (checked there) and are assumed inside the stub."""
+        ic = self.contracts[iface_key]
+        key = name or f"refine:{impl}=>{iface_key}"
+        params = ", ".join(ic.params.keys())
+        src = f"def stub({params}):\n    return {call}\n"
+        import importlib
+        g = {}
+        if impl and ":" in impl and not impl.startswith("iface:"):
+            mod, _, qn = impl.partition(":")
+            m = importlib.import_module(mod)
+            g = dict(vars(m))
+        c = self.contract(key, params=dict(ic.params), returns=ic.returns, requires=list(ic.requires) + list(extra_requires),
+                          ensures=list(ic.ensures), raises=dict(ic.raises), modifies=list(ic.modifies),
+                          captures=dict(bind), entry_assume=list(closure_requires), serves=serves, uses=uses,
+                          returns_expr=ic.returns_expr)
+        c.stub_src, c.stub_globals = src, g
+        self.refinements[(impl, iface_key)] = (key, list(closure_requires), list(bind.keys()))
         return c
 
     def cls(self, name, **kw):
@@ -176,8 +203,13 @@ class Engine(ExprMixin, CallMixin, StmtMixin):
         self.called = set()
         self.stats = collections.Counter()
         key = c.body_of or c.key
-        node = self.front.find(key)
-        self.globals_of_current = self.front.module_globals(key)
+        stub = getattr(c, "stub_src", None)
+        if stub is not None:
+            node = ast.parse(stub).body[0]
+            self.globals_of_current = dict(getattr(c, "stub_globals", {}))
+        else:
+            node = self.front.find(key)
+            self.globals_of_current = self.front.module_globals(key)
         self.current_key_for_nested = key
         self.loop_ordinal = {id(l): i + 1 for i, l in enumerate(loops_in_order(node))}
         for li in c.loops:
@@ -233,7 +265,11 @@ class Engine(ExprMixin, CallMixin, StmtMixin):
                 self.check_exceptional_exit(c, o, entry, node)
             else:
                 raise Unsupported(f"{o.kind} outside loop", node)
-        info = dict(self.front.info(key))
+        if stub is not None:
+            info = {"key": c.key, "file": "(refinement lemma over contracts: " + stub.strip().splitlines()[-1].strip() + ")",
+                    "lines": [0, 0], "sha256": "", "is_async": False}
+        else:
+            info = dict(self.front.info(key))
         info.update(paths=n_paths, stmts=self.stats["stmts"], gen_s=round(time.time() - t0, 3),
                     contract=c.key, calls=sorted(self.called))
         obs = self.obligations
@@ -249,6 +285,11 @@ class Engine(ExprMixin, CallMixin, StmtMixin):
 
     def check_normal_exit(self, c, o, entry, node):
         final = o.st
+        # sidecar ghost code anchored at the normal exit of the function
+        for gname, gexpr in getattr(c, "ghost_exit", ()):
+            env0 = self.post_env(c, final, entry)
+            gv = self.spec(gexpr, final, env=env0, old=entry, want_bool=False)
+            final = final.set_ghost(gname, self.coerce(gv, self.ghost_decl[gname]))
         res = o.val if o.kind == "return" and o.val is not None else self.lift(None)
         if c.returns is not None and c.returns is not T.NONE:
             res = self.coerce(res, c.returns, node)
